@@ -426,6 +426,9 @@ func (x *fnv) contractRegions(fc *FuncContract, fo *types.Func) []string {
 		x.bindParams(env, sig, recv, args)
 		for _, cl := range fc.Modifies {
 			for _, tg := range env.evalModTargets(cl.Expr) {
+				if tg.fresh {
+					continue // callee allocations are new objects, not part of the caller's loop write set
+				}
 				out = append(out, tg.prefix)
 			}
 		}
